@@ -1,0 +1,41 @@
+package kongutil
+
+import (
+	"fmt"
+	"os"
+	"reflect"
+
+	"github.com/alecthomas/kong"
+)
+
+// ExistingDirMapper is kong's "existingdir" without its early return for values that do not come from the
+// command line: that return skips the check and the assignment, so a directory given in a configuration file
+// was silently replaced by an empty string.
+var ExistingDirMapper = kong.NamedMapper("dir", kong.MapperFunc(existingDirMapper))
+
+func existingDirMapper(dctx *kong.DecodeContext, target reflect.Value) error {
+	if target.Kind() != reflect.String {
+		return fmt.Errorf("\"dir\" can only be used with string")
+	}
+
+	var path string
+	err := dctx.Scan.PopValueInto("dir", &path)
+	if err != nil {
+		return err
+	}
+
+	path = kong.ExpandPath(path)
+
+	stat, err := os.Stat(path)
+	if err != nil {
+		return err
+	}
+
+	if !stat.IsDir() {
+		return fmt.Errorf("%q exists but is not a directory", path)
+	}
+
+	target.SetString(path)
+
+	return nil
+}
